@@ -396,8 +396,12 @@ def dc5(ctx):
     for s in mk.body:
         if isinstance(s, ast.Assign) and call_name(s.value) == 'dataclasses.make_dataclass':
             made = s.targets[0].id
-    ctx.require(made is not None, 'make_dataclass: result of dataclasses.make_dataclass not stored')
-    flows = [c for c in calls_under(mk) if c.args and is_name(c.args[0], made)]
+    # (an explaining variable for the made class is inlined by the front end: the made class is
+    # then the first argument of the call it flows to)
+    direct = [c for c in calls_under(mk) if c.args and isinstance(c.args[0], ast.Call) and
+              call_name(c.args[0]) == 'dataclasses.make_dataclass']
+    ctx.require(made is not None or direct, 'make_dataclass: result of dataclasses.make_dataclass not passed on')
+    flows = direct or [c for c in calls_under(mk) if c.args and is_name(c.args[0], made)]
     ctx.require(flows, 'make_dataclass: the made class is not passed on')
     for c in flows:
         callee = call_name(c)
